@@ -140,8 +140,8 @@ def render_duration(d):
     return " ".join(out)
 
 
-def mk(text, pre, default, kind, **meta):
-    c = exec_case(text, "en", pre=pre, kind=kind, **meta)
+def mk(text, pre, default, kind, lang="en", **meta):
+    c = exec_case(text, lang, pre=pre, kind=kind, **meta)
     c["meta"]["default"] = default
     return c
 
@@ -181,7 +181,10 @@ def generate(rng, tier):
         pre, dflt = default_zone(rng)
         tt, w = time_text(rng)
         zt, zn, zo = zone(rng)
-        cases.append(mk("%s %s" % (tt, zt), pre, dflt, "literal-zone", w=w, zone=[zn, zo], shown=w, rel=w - 60 * zo))
+        # a time with a zone needs no language word: one case in five is evaluated under language tr
+        lang = "tr" if rng.random() < 0.2 else "en"
+        cases.append(mk("%s %s" % (tt, zt), pre, dflt, "literal-zone" + ("-tr" if lang == "tr" else ""), lang=lang,
+                        w=w, zone=[zn, zo], shown=w, rel=w - 60 * zo))
     # --- every table zone once as a literal zone and once as the default (finite table)
     for z in (rng.sample(ZONES, 25) if quick else ZONES):
         tt, w = time_text(rng)
@@ -234,6 +237,15 @@ def generate(rng, tier):
                              ("11:59:59 PM", 86399, "+", "1 second", 1), ("1:20:30 pm", 48030, "-", "14 hours", 50400)]:
         sh = (w + d) % 86400 if op == "+" else (w - d) % 86400
         cases.append(mk("%s %s %s" % (tt, op, dt), [], ("UTC", 0), "arith" + op, w=w, d=d, zone=["UTC", 0], shown=sh, relmod=sh))
+    # under language tr, with the Turkish duration words
+    for tt, w, zt, zo, op, dt, d in [("11:30", 41400, "EST", -300, "+", "2 saat", 7200), ("23:30", 84600, "GMT+3", 180, "+", "45 dakika", 2700),
+                                     ("0:15", 900, "CET", 60, "-", "30 dakika", 1800), ("12:00:30", 43230, "UTC", 0, "+", "90 saniye", 90),
+                                     ("8:00", 28800, "PST", -480, "-", "1 gün 2 saat", 93600)]:
+        if zt not in TABLE and not zt.startswith("GMT"):
+            continue
+        sh = (w + d) % 86400 if op == "+" else (w - d) % 86400
+        cases.append(mk("%s %s %s %s" % (tt, zt, op, dt), [], ("UTC", 0), "arith" + op + "-tr", lang="tr", w=w, d=d,
+                        zone=[zt, zo], shown=sh, relmod=(sh - 60 * zo) % 86400))
     # --- T1 to T2
     for _ in range(40 if quick else 600):
         pre, dflt = default_zone(rng, 0.25)
